@@ -34,6 +34,9 @@ namespace detail
 		GLM_CONSTEXPR int_type mantissa() const { return i & ((1 << 23) - 1); }
 		GLM_CONSTEXPR int_type exponent() const { return (i >> 23) & ((1 << 8) - 1); }
 
+		// Position on a monotonic integer line: adjacent values differ by one, +0 and -0 are both at 0.
+		GLM_CONSTEXPR detail::int64 ordered() const { return i < 0 ? -static_cast<detail::int64>(i & 0x7FFFFFFF) : static_cast<detail::int64>(i); }
+
 		int_type i;
 		float_type f;
 	};
@@ -56,6 +59,9 @@ namespace detail
 		GLM_CONSTEXPR bool negative() const { return i < 0; }
 		GLM_CONSTEXPR int_type mantissa() const { return i & ((int_type(1) << 52) - 1); }
 		GLM_CONSTEXPR int_type exponent() const { return (i >> 52) & ((int_type(1) << 11) - 1); }
+
+		// Position on a monotonic integer line: adjacent values differ by one, +0 and -0 are both at 0.
+		GLM_CONSTEXPR int_type ordered() const { return i < 0 ? -(i & static_cast<int_type>(0x7FFFFFFFFFFFFFFFull)) : i; }
 
 		int_type i;
 		float_type f;
